@@ -391,8 +391,11 @@ Proof. intros H. apply Permutation_map. eapply schedule_independent. exact H. Qe
 
 (* ------------------------------------------------------------------ before the repairs (documentation of D10 / D31):
    the same machine with the expressions the source had *)
+(* Molecule.can_be_yielded written out (so that these historical examples do not move with the source) *)
+Definition yieldable_doc (cache : Z) (g : frag) (m : mol) : bool :=
+  negb (f_chrom g =? m_chrom m) || (2 * f_end g <? 2 * m_start m - cache) || (2 * f_end g >? 2 * m_end m + cache).
 Definition runC_with (pidx : Z -> Z -> Z) (matchm : mol -> frag -> bool) (c : cfg) (fs : list frag) :=
-  frun_machine frag mol new_mol add_mol matchm f_valid nochrom (yieldable (c_cache c)) pidx
+  frun_machine frag mol new_mol add_mol matchm f_valid nochrom (yieldable_doc (c_cache c)) pidx
                (c_every c) (c_yield_invalid c) fs.
 
 (* Fragment.__eq__ as it was: no contig comparison *)
